@@ -585,29 +585,14 @@ fn judge(
                     }
                 }
             }
-            // while fewer failed than the budget: every wanted step not downstream of a failure is brought up to date
-            if let InvResult::Failed = &out.result {
-                let budget_reached = inv.k.map(|k| nfail >= k).unwrap_or(false);
-                if !budget_reached && !interrupted && predicted_error.is_none() && cfg.undeclared_pool.is_none() {
-                    // every predicted-run step not blocked by an actual failure must have started
-                    let failed_idx: BTreeSet<usize> = out.failed_steps.iter().filter_map(|s| proj.step_index(s)).collect();
-                    for &si in pred.p1.run.iter() {
-                        let blocked = rel.ord_anc[si].iter().any(|a| failed_idx.contains(a));
-                        if !blocked && !started.contains(&proj.steps[si].id) && !pred.two_phase {
-                            rep.violation(
-                                "unblocked-step-not-run",
-                                &format!("{} failed (< budget {:?}) but dirty step {} not downstream of a failure was never started", nfail, inv.k, proj.steps[si].id),
-                                case_json(case, proj, inv, Some(out)),
-                            );
-                        }
-                    }
-                }
-            }
+            check_runs_everything_runnable(rep, out, proj, &rel, pred, inv, cfg, &started, predicted_error.is_some(), case);
             if predicted_error.is_some() && matches!(out.result, InvResult::Success(_)) {
                 rep.violation("success-despite-rejected-graph", &format!("expected error {:?}", predicted_error), case_json(case, proj, inv, Some(out)));
             }
         }
         "C06" => {
+            // "if some fail it stops as soon as nothing further can run": not earlier
+            check_runs_everything_runnable(rep, out, proj, &rel, pred, inv, cfg, &started, predicted_error.is_some(), case);
             match &out.result {
                 InvResult::HarnessStop(r) => {
                     // already recorded online as a C06 violation
@@ -773,4 +758,40 @@ fn check_no_validation_ordering(
         }
     }
     let _ = BTreeMap::<u8, u8>::new();
+}
+
+/// After a build that failed with the budget not exhausted, every dirty wanted step that is not
+/// downstream of an actual failure must have been started (C05: "still brought up to date";
+/// C06: "stops as soon as nothing further can run", not before).
+#[allow(clippy::too_many_arguments)]
+fn check_runs_everything_runnable(
+    rep: &mut Report,
+    out: &InvOut,
+    proj: &Project,
+    rel: &Rel,
+    pred: &super::PredInv,
+    inv: &Inv,
+    cfg: &CaseCfg,
+    started: &BTreeSet<String>,
+    predicted_error: bool,
+    case: u64,
+) {
+    let nfail = out.failed_steps.len();
+    let interrupted = out.events.iter().any(|e| matches!(e, Ev::Finish { term: n2::verif::SimTermination::Interrupted, .. }));
+    if let InvResult::Failed = &out.result {
+        let budget_reached = inv.k.map(|k| nfail >= k).unwrap_or(false);
+        if !budget_reached && !interrupted && !predicted_error && cfg.undeclared_pool.is_none() {
+            let failed_idx: BTreeSet<usize> = out.failed_steps.iter().filter_map(|s| proj.step_index(s)).collect();
+            for &si in pred.p1.run.iter() {
+                let blocked = rel.ord_anc[si].iter().any(|a| failed_idx.contains(a));
+                if !blocked && !started.contains(&proj.steps[si].id) && !pred.two_phase {
+                    rep.violation(
+                        "unblocked-step-not-run",
+                        &format!("{} failed (< budget {:?}) but dirty step {} not downstream of a failure was never started", nfail, inv.k, proj.steps[si].id),
+                        case_json(case, proj, inv, Some(out)),
+                    );
+                }
+            }
+        }
+    }
 }
